@@ -455,8 +455,9 @@ pub fn lexa(fields: &[&str]) -> String
 	}
 	out.join(" ")
 }
-fn render_all(errors: &[penne::alpha::Error], units: &[(String, String)]) -> Result<usize, String>
+fn render_all(errors: &[penne::alpha::Error], units: &[(String, String)]) -> Result<(usize, u64), String>
 {
+	let mut hash: u64 = 0;
 	// every colour / charset configuration the CLI offers (stdout.rs: StdOut::new)
 	let mut total = 0;
 	for with_color in [false, true]
@@ -485,6 +486,8 @@ fn render_all(errors: &[penne::alpha::Error], units: &[(String, String)]) -> Res
 					Ok(Ok(buffer)) =>
 					{
 						total += buffer.len();
+						// the whole rendered text (labels, notes, every configuration) enters the answer
+						hash = hash.rotate_left(7) ^ fnv(&buffer);
 						if !with_color && buffer.windows(2).any(|w| w == b"\x1b[")
 						{
 							return Err(format!("E{}: ANSI escape without colour", error.code()));
@@ -496,7 +499,7 @@ fn render_all(errors: &[penne::alpha::Error], units: &[(String, String)]) -> Res
 			}
 		}
 	}
-	Ok(total)
+	Ok((total, hash))
 }
 
 fn fnv(data: &[u8]) -> u64
@@ -539,7 +542,7 @@ pub fn diag(fields: &[&str]) -> String
 	}
 	let render = match render_all(&all, &units)
 	{
-		Ok(n) => format!("ok:{}", n),
+		Ok((n, h)) => format!("ok:{}:{:016x}", n, h),
 		Err(e) => format!("FAIL[{}]", e.replace(' ', "_")),
 	};
 	let irhash = match &o.linked_ir
